@@ -642,7 +642,9 @@ pub fn exec(op: &str, a: &[u64]) -> Result<Outcome, String> {
             o.check(exited, "buffer thread did not exit after the consumer dropped the iterator");
             Ok(o)
         }
-        "pipepanic" | "pipepanic2" | "pipepanic3" => {
+        "pipepanic" | "pipepanic2" | "pipepanic3" | "pipepanic4" => {
+            // pipepanic4: the consumer holds the locks of stdout and stderr while it iterates (a loop that writes the
+            // results through a locked handle): the way out of a failing worker must not need them
             // pipepanic3: the panicking pipe was created while an older pipe was alive, and the older pipe is dropped
             // before the panic (the hand-over between two epochs of a loader)
             // pipepanic2: the panicking pipe is created after a healthy pipe and after another component replaced
@@ -653,7 +655,7 @@ pub fn exec(op: &str, a: &[u64]) -> Result<Outcome, String> {
             r.end()?;
             let exe = std::env::current_exe().map_err(|e| e.to_string())?;
             let mut child = std::process::Command::new(exe)
-                .args([if op == "pipepanic" { "panic-child" } else if op == "pipepanic2" { "panic-child-later" } else { "panic-child-handover" }, &w.to_string(), &n.to_string(), &j.to_string()])
+                .args([if op == "pipepanic" { "panic-child" } else if op == "pipepanic2" { "panic-child-later" } else if op == "pipepanic4" { "panic-child-locked" } else { "panic-child-handover" }, &w.to_string(), &n.to_string(), &j.to_string()])
                 .stdout(std::process::Stdio::null())
                 .stderr(std::process::Stdio::null())
                 .spawn()
@@ -728,6 +730,22 @@ pub fn panic_child(w: usize, n: usize, j: usize) -> ! {
         f(x)
     });
     let out: Vec<u64> = (0..n as u64).pipe(pipeline, w as u8).collect();
+    std::process::exit(if out.len() == n { 0 } else { 7 })
+}
+
+/// child process: like `panic_child`, but the consumer holds the stdout and stderr locks while it iterates
+pub fn panic_child_locked(w: usize, n: usize, j: usize) -> ! {
+    let pipeline: Arc<dyn Fn(u64) -> u64 + Send + Sync> = Arc::new(move |x| {
+        if x as usize == j {
+            panic!("injected panic at item {j}");
+        }
+        f(x)
+    });
+    let out_lock = std::io::stdout().lock();
+    let err_lock = std::io::stderr().lock();
+    let out: Vec<u64> = (0..n as u64).pipe(pipeline, w as u8).collect();
+    drop(err_lock);
+    drop(out_lock);
     std::process::exit(if out.len() == n { 0 } else { 7 })
 }
 
@@ -1064,6 +1082,9 @@ pub fn run_c09(ctx: &mut Ctx) {
         ctx.case(["pipepanic", "pipepanic3", "pipepanic2"][i as usize % 3], &[w, n, j]);
     }
     if ctx.first_shard() {
+        ctx.case("pipepanic4", &[2, 12, 5]);
+        ctx.case("pipepanic4", &[1, 8, 0]);
+        ctx.case("pipepanic4", &[3, 9, 20]);
         ctx.case("pipepanic2", &[2, 12, 5]);
         ctx.case("pipepanic3", &[2, 12, 5]);
         ctx.case("pipepanic3", &[3, 40, 0]);
